@@ -19,9 +19,9 @@ Conforms(ev) ==
   /\ ev.got.has_line_info = R!HasLineInfo(ev.items)
   /\ ev.got.summary = R!Summary(ev.items)
 
-VARIABLE i
-Init == i \in 1..(IF N < K THEN N ELSE K)
-Next == i + K <= N /\ i' = i + K
-Spec == Init /\ [][Next]_i
-Check == Conforms(Events[i]) \/ PrintT("MISMATCH " \o ToString(i))
+VARIABLE cursor
+Init == cursor \in 1..(IF N < K THEN N ELSE K)
+Next == cursor + K <= N /\ cursor' = cursor + K
+Spec == Init /\ [][Next]_cursor
+Check == Conforms(Events[cursor]) \/ PrintT("MISMATCH " \o ToString(cursor))
 =============================================================================
